@@ -59,7 +59,7 @@ def boxes(rng, n, bs, count):
 
 def run(ctx):
     rng = gen.rng_for(ctx.seed, 'c10')
-    n_files = 24 if ctx.quick else 300
+    n_files = ctx.n(24, 300)
     model = core.Model()
     try:
         for k, fi in enumerate(files.read_files(ctx, rng, n_files, kinds=('default', 'zslice', 'general', 'default', 'b0is4', None),
@@ -71,7 +71,7 @@ def run(ctx):
                 # one cropper instance writes all the crops of this source, in sequence (a tool that tiles a survey does
                 # exactly that): the k-th output must not depend on the crops written before it
                 shared = SgzCropper(fi.path) if k % 3 != 2 else None
-                for kind, box in boxes(rng, fi.n, fi.lay.bs, 6 if ctx.quick else 25):
+                for kind, box in boxes(rng, fi.n, fi.lay.bs, ctx.n(6, 25)):
                     out = ctx.path('crop.sgz')
                     if os.path.exists(out):
                         os.unlink(out)
